@@ -5,8 +5,6 @@ import (
 	"strconv"
 	"strings"
 
-	"golang.org/x/exp/slices"
-
 	"github.com/rs/zerolog/log"
 	"github.com/valyala/fastjson"
 )
@@ -155,25 +153,33 @@ func (obfuscator Obfuscator) obfuscateJSON(
 	return obfuscatedJSON, nil
 }
 
-// isCursorInExcludedPath checks if the given path segment should be excluded from obfuscation
-// usage only slices.Contains(excludedPaths, cursor) cannot work for JSONPath exclusions,
-// since it compares the whole string and works only for simple strings exclusions
-func isCursorInExcludedPath(cursor string, excludedPaths []string) bool {
-	// simple string comparison
-	if slices.Contains(excludedPaths, cursor) {
-		return true
-	}
+// bodyPathPrefixes are the JSONPath roots under which a body exclusion may be written
+// (e.g. "$.request.body.user.name"); what follows the root is the path inside the body.
+var bodyPathPrefixes = []string{"$.request.body", "$.response.body"}
 
-	// json path support
-	if cursor == "" {
-		return false
-	}
+// isCursorInExcludedPath checks if the given cursor (a path inside the body such as ".user.name" or
+// ".items[].id"; "" is the whole body) is one of the excluded paths.
+// An excluded path is written either in the same dotted notation (".user.name") or as a JSONPath
+// rooted at the body ("$.request.body.user.name"). The comparison is exact: an exclusion must not
+// match a different path that merely ends with the same segments (a top-level ".name" is not
+// excluded by ".user.name").
+func isCursorInExcludedPath(cursor string, excludedPaths []string) bool {
 	for _, path := range excludedPaths {
-		if strings.HasSuffix(path, cursor) {
+		if path == cursor || trimBodyPathPrefix(path) == cursor {
 			return true
 		}
 	}
 	return false
+}
+
+// trimBodyPathPrefix turns "$.request.body.user.name" into ".user.name"
+func trimBodyPathPrefix(path string) string {
+	for _, prefix := range bodyPathPrefixes {
+		if strings.HasPrefix(path, prefix) {
+			return strings.TrimPrefix(path, prefix)
+		}
+	}
+	return path
 }
 
 func getKeys(object *fastjson.Object) []string {
